@@ -6,8 +6,9 @@
 (*                  handler has registered a wait which is not cleared yet                          *)
 (*   pc = "waitplayer" (_at_least_one_player_event), "live" (_end_ball_event), "idle", "boot"      *)
 (* `Adv` is the piece of coroutine between two posts (silent in traces); `Deliver` runs handlers.  *)
-(* The player-add pipeline (request_player_add -> player_add_request(boolean) -> player_will_add,  *)
-(* player_adding(queue) -> player_added) runs concurrently, one instance per requested player.     *)
+(* The player-add pipeline (request_player_add -> player_add_request(boolean) -> [callback creates   *)
+(* the Player: PCreate] -> player_will_add, player_adding(queue) -> [PComplete] -> player_added)     *)
+(* runs concurrently with the coroutine, one instance per requested player.                          *)
 (* Environment actions are enabled at every point.                                                 *)
 (* Deviations (code as is, each contradicts the statement; empty set = the statement):             *)
 (*   "ExtraBallAfterEndGame"  extra balls are still started after end_game()                        *)
